@@ -553,7 +553,7 @@ def replay(ctx: core.Ctx, rp: dict) -> int:
         if r.get("via", "collect").startswith("df.sql"):
             req["sql_dialects"] = {"0": [r["via"][len("df.sql(dialect="):-1]]}
     else:
-        req = {"tables": tables, "programs": [], "tables_for": {}}
+        req = {"tables": tables, "programs": [], "tables_for": {}, "functions": r.get("functions") or ([r["function"]] if "function" in r else [])}
     for e in (engine, "duckdb"):
         res = run_worker(e, req)
         if "fatal" in res:
@@ -567,6 +567,11 @@ def replay(ctx: core.Ctx, rp: dict) -> int:
                 print("  parses:", s["parse"], "fixed point:", s["fixed_point"], "reader error:", s["error"])
             for x, sr in (c.get("sql") or {}).items():
                 print(f"  df.sql(dialect={x}):", sr.get("cols"), sr.get("rows"), sr.get("error"))
+        for f in res.get("functions", []):
+            print("F." + f["fn"], "columns:", f["cols"], "rows:", (f["rows"] or [])[:3], "exception:", f["exc"])
+            for st in f["statements"]:
+                print("  statement:", st["sql"])
+                print("  parses:", st["parse"], "fixed point:", st["fixed_point"], "re-rendered:", st.get("rerendered"), "reader error:", st["error"])
         if "probe" in r:
             for p in res["probes"]:
                 if p["probe"] == r["probe"]:
